@@ -52,6 +52,7 @@ func runC15(c *Ctx) {
 	checkRescanFinishedCatchesUpToBackendTip(c, "C15-R2")
 	checkReorgListBuiltInOneDirection(c, "C15-R2")
 	checkFilteredBlocksAlwaysAnnounced(c, "C15-R2")
+	checkSyncedFlagNeverClearedByWallet(c, "C15-R2")
 	// the wallet can follow the backend only if the notifications reach it in the order they were produced
 	c.Borrow(runC18, "C18-R1", "C15-R2", func(k string) bool { return strings.HasPrefix(k, "direct-handoff-only-when-overflow-empty") })
 	// the two stores move together during recovery too: a batch's stamps and the transactions found in it are written in
@@ -478,6 +479,32 @@ func checkStartupWalk(c *Ctx, rule string) {
 		// the walk may sit in an extracted part: a call of a helper that always runs it is the walk
 		isWalkLifted := viaHelpers("startup-walk", isWalkBase, true)
 		isWalk := func(ins ssa.Instruction) bool { return isWalkLifted(ins) }
+		// the database transaction that runs the walk always unconfirms what the store holds above the block the walk
+		// ended on — also when no stored hash differed: a relevant transaction is recorded when it is announced, before
+		// its block is connected, so the store can be ahead of the synced-to block; if that block was reorganised out
+		// while the wallet was stopped, the walk sees nothing wrong (the tip is still on the chain) and only the
+		// unconditional rollback removes the stale confirmation
+		if rbFn := p.Func("wtxmgr", "Store", "Rollback"); rbFn != nil {
+			nWalkTx := 0
+			for _, part := range p.regionTop(sw) {
+				for _, ci := range callsOf(part) {
+					call, ok := ci.(*ssa.Call)
+					if !ok || !isWalkBase(call) {
+						continue
+					}
+					for _, cl := range funcArgs(call) {
+						nWalkTx++
+						bad := p.mustPassToSuccess(cl, nil, viaHelpers("Store.Rollback", func(ins ssa.Instruction) bool { return p.isCallTo(ins, rbFn) }, true), nil)
+						detail := ""
+						if bad != nil {
+							detail = "the startup reorg check can finish at " + p.Pos(bad.Pos()) + " without rolling the transaction store back to the block it ended on: a transaction recorded in a block above the synced-to block (announced before its block was connected) stays confirmed in that block when the block was reorganised out while the wallet was stopped"
+						}
+						c.Check(rule, "startup-always-unconfirms-above-stamp", call.Pos(), bad == nil, detail)
+					}
+				}
+			}
+			c.Floor(rule, "database transactions running the startup walk", nWalkTx, 1)
+		}
 		nScan := 0
 		for _, part := range p.regionTop(sw) {
 			for _, ci := range callsOf(part) {
@@ -1269,4 +1296,33 @@ func checkPutSyncedTo(c *Ctx, ps *ssa.Function) {
 		}
 		c.Check("C15-R3", "no-hash-left-above-stamp", ps.Pos(), okSweep, detail)
 	}
+}
+
+// checkSyncedFlagNeverClearedByWallet: while the wallet is not marked "chain synced" it ignores block-disconnected
+// notifications (known finding F38 covers the window before the first rescan has finished). That window must not be
+// re-opened: inside the wallet package the flag is only ever SET (the RescanFinished arm); a later rescan of an already
+// synced wallet — a reconnect, an explicit Rescan — that cleared it again would drop every reorganisation reported
+// while it runs, leaving the disconnected block's transactions confirmed.
+func checkSyncedFlagNeverClearedByWallet(c *Ctx, rule string) {
+	p := c.P
+	set := p.Func("wallet", "Wallet", "SetChainSynced")
+	if set == nil {
+		c.Unresolved(rule, "wallet.Wallet.SetChainSynced")
+		return
+	}
+	n := 0
+	for _, fn := range p.FuncsIn("wallet") {
+		for _, ci := range callsOf(fn) {
+			call, ok := ci.(*ssa.Call)
+			if !ok || !p.isCallTo(call, set) || len(call.Call.Args) < 2 {
+				continue
+			}
+			n++
+			k, isK := stripConv(call.Call.Args[1]).(*ssa.Const)
+			okArg := isK && k.Value != nil && k.Value.String() == "true"
+			c.Check(rule, "synced-flag-never-cleared-by-wallet:"+fnName(outermost(fn)), call.Pos(), okArg,
+				fnName(fn)+" can mark an already synced wallet as not synced again: block-disconnected notifications arriving until the flag is set back are ignored, so a reorganisation reported during that time leaves its transactions confirmed in a block that is no longer on the best chain")
+		}
+	}
+	c.Floor(rule, "settings of the chain-synced flag inside the wallet", n, 1)
 }
